@@ -83,15 +83,26 @@ static Outcome runCase(const KV& c)
                     scale[g.index(i, j)] = dia * um;
                 }
         }
-        // implementations: give x 4 cache combinations, take (both caches)
-        for (int impl = 0; impl < 5; impl++) {
+        // implementations: give x 4 cache combinations, take (both caches); with via_level also 5/6: take and give through
+        // the Level interface the solver uses, on a Level object first initialised for the OTHER boundary mode
+        const int nimpl = c.getI("via_level", 0) ? 7 : 5;
+        for (int impl = 0; impl < nimpl; impl++) {
             const int hk           = impl < 4 ? impl : 3;
             const Level& lev       = *H[hk].levels[l];
-            const std::string name = impl < 4 ? ("give[coef=" + std::to_string(hk & 1) + ",geom=" + std::to_string((hk >> 1) & 1) + "]") : "take";
+            const std::string name = impl < 4 ? ("give[coef=" + std::to_string(hk & 1) + ",geom=" + std::to_string((hk >> 1) & 1) + "]")
+                                              : (impl == 4 ? "take" : (impl == 5 ? "take via re-initialised Level" : "give via re-initialised Level"));
             Vector<double> res(n);
             for (int i = 0; i < n; i++)
                 res[i] = 1e300; // must be overwritten
-            if (impl < 4) {
+            if (impl >= 5) {
+                Level& L = *H[3].levels[l];
+                const auto method = impl == 5 ? StencilDistributionMethod::CPU_TAKE : StencilDistributionMethod::CPU_GIVE;
+                L.initializeResidual(*H[3].geometry, *H[3].coefficients, !p.dirbc, 1, method);
+                L.initializeResidual(*H[3].geometry, *H[3].coefficients, p.dirbc, 1, method);
+                L.computeResidual(res, f, u);
+                o.cls("via_level_reinitialised");
+            }
+            else if (impl < 4) {
                 // known finding F15: with an empty circle section and the across-origin closure the parallel
                 // give residual races on the antipodal radial line; excluded by construction (counted) unless
                 // the case asks for it (include_known=1, used by the regression case findings/F15.case)
@@ -266,6 +277,7 @@ static KV genCase()
     c.putI("depth", depth);
     c.putI("threads", rpick({1, 1, 2, 3, 5, 16}));
     c.putI("short_team", rweighted({4, 1}));
+    c.putI("via_level", rweighted({3, 1}));
     c.putI("u_kind", rweighted({4, 3, 1, 1, 1, 1}));
     c.putU("u_seed", rseed());
     c.putI("vec_scale_exp", rpick({0, 0, 0, 0, 0, 0, -300, -100, 100, 300}));
